@@ -118,8 +118,8 @@ def dump(cache, numbering, nkeys):
     fwd = walk(cache.head, 'nxt', size + 2)     # same bound as the model's dump
     bwd = walk(cache.tail, 'prv', size + 2)
     o = numbering.of
-    nodes = Atom('loop') if fwd is None else [[o(n), o(n.prv), o(n.nxt), n.key, n.value] for n in fwd]
-    back = Atom('loop') if bwd is None else [o(n) for n in bwd]
+    nodes = 'loop' if fwd is None else [[o(n), o(n.prv), o(n.nxt), n.key, n.value] for n in fwd]
+    back = 'loop' if bwd is None else [o(n) for n in bwd]
     d = [[k, o(cache._dict[k])] for k in range(nkeys) if k in cache._dict]
     return [o(cache.head), o(cache.tail), size, nodes, back, d]
 
@@ -153,25 +153,39 @@ def structure_ok(cache):
     return None
 
 
+def fe(x):
+    """fast wire encoder for values made of ints, None, bools, atoms and lists (no strings)"""
+    t = type(x)
+    if t is list or t is tuple:
+        return '( ' + ' '.join([fe(y) for y in x]) + ' )' if x else '( )'
+    if t is int:
+        return str(x)
+    if x is None:
+        return 'N'
+    if t is bool:
+        return 'T' if x else 'F'
+    return str(x)
+
+
 def wire_ops(ops):
     return [Atom(op[0]) if len(op) == 1 else [Atom(op[0])] + list(op[1:]) for op in ops]
 
 
 def wire_out(o):
     if o == 'KE' or o == 'U':
-        return Atom(o)
-    if isinstance(o, bool):
-        return B(o)
-    return [Atom(o[0])] + [Atom(x) if isinstance(x, str) else x for x in o[1:]]
+        return o
+    if o is True or o is False:
+        return o
+    return list(o)
 
 
 def model_line(cap, nkeys, ops):
-    return proto.line(Atom('C15'), Atom('lru'), cap, nkeys, wire_ops(ops))
+    return 'C15 lru %d %d %s' % (cap, nkeys, fe([op[0] if len(op) == 1 else op for op in ops]))
 
 
 def run_real(LRUCache, cap, ops, nkeys):
-    """run ops on a fresh real cache. Returns (outs, dump, error) where error is the exception
-    class name if an operation crashed (outs/dump then describe the state before the crash)"""
+    """run ops on a fresh real cache. Returns (cache, numbering, outs, error) where error is the
+    exception class name if an operation crashed"""
     cache = LRUCache(cap)
     num = Numbering()
     outs = []
@@ -190,6 +204,5 @@ def run_real(LRUCache, cap, ops, nkeys):
 
 def expected_answer(outs, dmp, items):
     """the answer line gdrv gives when the real run agrees with both models"""
-    conc = [[wire_out(o) for o in outs], dmp + [B(True)]]
-    absd = [[wire_out(o) for o in outs], [[k, v] for k, v in items]]
-    return proto.enc([conc, absd])
+    w = fe([wire_out(o) for o in outs])
+    return '( ( %s %s ) ( %s %s ) )' % (w, fe(dmp + [True]), w, fe([[k, v] for k, v in items]))
